@@ -433,6 +433,10 @@ var _ = model.Clone
 
 func c01Child(r *ev.Run, batch int) {
 	installClientHook()
+	if batch%4 == 0 {
+		c01DeferredErrorCase(r, batch, "monitor_cond")
+		c01DeferredErrorCase(r, batch, "monitor_cond_since")
+	}
 	cases := r.N(25, 160)
 	for ci := 0; ci < cases; ci++ {
 		p := prng.Derive(r.Seed, "C01", batch, ci)
